@@ -1,6 +1,7 @@
 // C04 (RS-Vandermonde canonical MDS code), C05 (flat-XOR tables), C07 (wire format), C08 (sizes)
 #include "lib.hpp"
 #include <dlfcn.h>
+#include <pthread.h>
 using namespace fw;
 using namespace lib;
 
@@ -295,6 +296,55 @@ static Result run_c04_parity(const Case &c) {
     r.nontrivial = g.k >= 2 && words.size() >= 2;
     return r;
 }
+// same oracle with several threads encoding at once (different data, own or shared instance): the closed
+// form does not depend on what other threads are doing
+struct MtArg { int desc; Config g; std::vector<uint8_t> data; std::string err; pthread_barrier_t *bar; int rounds; };
+static void *mt_encode(void *p) {
+    MtArg &a = *(MtArg *)p;
+    auto want = ref::encode_payloads(a.g, a.data.data(), a.data.size());
+    pthread_barrier_wait(a.bar);
+    for (int r = 0; r < a.rounds && a.err.empty(); r++) {
+        Stripe s = encode(a.desc, a.g, a.data);
+        if (s.rc != 0) { a.err = "encode failed"; break; }
+        for (int i = 0; i < a.g.n(); i++) {
+            std::vector<uint8_t> pay(s.frags[i].begin() + 80, s.frags[i].end());
+            if (pay != want[i]) { a.err = "payload " + std::to_string(i) + " differs from the closed-form model while other threads encode: " + first_diff(pay, want[i]); break; }
+        }
+    }
+    return nullptr;
+}
+static Result run_c04_parity_mt(const Case &c) {
+    Result r;
+    Config g = cfg_from(c);
+    int nt = (int)c.get("threads", 4);
+    bool shared = c.get("shared") != 0;
+    std::vector<std::unique_ptr<Instance>> inst;
+    std::vector<MtArg> args(nt);
+    pthread_barrier_t bar; pthread_barrier_init(&bar, nullptr, nt);
+    for (int t = 0; t < nt; t++) {
+        if (t == 0 || !shared) { inst.emplace_back(new Instance(g)); if (!inst.back()->ok()) { r.fail("create refused"); return r; } }
+        args[t].desc = inst.back()->desc; args[t].g = g; args[t].bar = &bar; args[t].rounds = (int)c.get("rounds", 6);
+        Case dc; dc.set("d_cls", BUF_RANDOM); dc.set("d_seed", c.get("data_seed") + 7919 * t); dc.set("d_len", c.get("data_len"));
+        args[t].data = expand_buffer(dc, "d");
+    }
+    std::vector<pthread_t> th(nt);
+    for (int t = 0; t < nt; t++) pthread_create(&th[t], nullptr, mt_encode, &args[t]);
+    for (int t = 0; t < nt; t++) pthread_join(th[t], nullptr);
+    pthread_barrier_destroy(&bar);
+    for (int t = 0; t < nt; t++) if (!args[t].err.empty()) r.fail("thread " + std::to_string(t) + ": " + args[t].err);
+    r.cls(shared ? "shared_instance" : "own_instances");
+    r.nontrivial = g.k >= 2 && g.m >= 2 && c.get("data_len") / g.k > 1024;
+    return r;
+}
+static Case gen_c04_parity_mt() {
+    Case c; Config t = gen_config(G_RS); Config g;
+    g.backend = ref::B_RS; g.k = std::min(t.k, 12); g.m = std::min(std::max(t.m, 2), 32 - g.k); g.hd = g.m; g.w = 0; g.ct = CT_NONE;
+    cfg_to(c, g);
+    size_t pay = coin(3, 4) ? (size_t)pick(1100, 6000) : (size_t)pick(2, 1000);
+    c.set("data_cls", BUF_RANDOM); c.set("data_seed", (int64_t)pick_seed()); c.set("data_len", (int64_t)(pay * g.k));
+    c.set("threads", pick(2, 6)); c.set("shared", coin() ? 1 : 0); c.set("rounds", pick(2, 8));
+    return c;
+}
 static Case gen_c04_parity() {
     Case c; Config g;
     g.backend = ref::B_RS;
@@ -502,6 +552,7 @@ int main(int argc, char **argv) {
     h.mode("c08_sweep", sweep_c08, run_c08);
     h.mode("c04_matrix", sweep_c04, run_c04_matrix);
     h.mode("c04_parity", [] { rc_property("C04 parity closed form", gen_c04_parity, run_c04_parity); }, run_c04_parity);
+    h.mode("c04_parity_mt", [] { rc_property("C04 parity closed form under concurrent encodes", gen_c04_parity_mt, run_c04_parity_mt); }, run_c04_parity_mt);
     h.mode("c05_tables", sweep_c05_tables, run_c05_tables);
     h.mode("c05_encode", sweep_c05_encode, run_c05_encode);
     h.mode("c05_unsupported", sweep_c05_unsupported, run_c05_unsupported);
